@@ -120,6 +120,8 @@ class CallMixin:
             return self.call_method(f.recv, f.name, args, kwargs, st, node, want)
         if isinstance(f, Contract_):
             return self.apply_contract(f.c, None, args, kwargs, st, node)
+        if isinstance(f, ObjRef):
+            return self.call_method(f, "__call__", args, kwargs, st, node, want)
         from .stmts import GhostFun
 
         if isinstance(f, GhostFun):
@@ -197,9 +199,15 @@ class CallMixin:
                 raise Unsupported(f"{name} of a collection")
             if all(isinstance(a, int) and not isinstance(a, bool) for a in args):
                 return min(args) if name == "min" else max(args)
-            r = args[0]
+            def nn(v):
+                if isinstance(v, SV) and v.pt.kind == "opt":
+                    self.safety(st, ops.opt_is_some(v), f"{name}() operand is not None")
+                    return ops.opt_the(v)
+                return v
+
+            r = nn(args[0])
             for a in args[1:]:
-                r = ops.minmax(name, r, a)
+                r = ops.minmax(name, r, nn(a))
             return r
         if name == "abs":
             (x,) = args
